@@ -47,7 +47,7 @@ let scripted (ops : string list) : string =
 let handle (line : string) : string =
   match split_on ' ' line with
   | ["S"; ops] -> scripted (split_on ';' ops)
-  | "P" :: _ -> "P ok" | "X" :: _ -> "X ok" | "C" :: _ -> "C ok" | "Y" :: _ -> "Y ok"
+  | "P" :: _ -> "P ok" | "X" :: _ -> "X ok" | "C" :: _ -> "C ok" | "Y" :: _ -> "Y ok" | "K" :: _ -> "K ok"
   | _ -> "BADCASE"
 
 let () = run_cases handle
